@@ -92,6 +92,8 @@ def generate(rng, index, cfg):
         subdirs = [d for d in dirs if d and any(p.startswith(d + "/") for p in list(work) + list(tracked))]
         q["cwd"] = rng.choice(subdirs) if (subdirs and rng.random() < swarm["p_query_sub"]) else ""
         commits = ["HEAD"] + ["HEAD~%d" % k for k in range(1, min(ncommits, 4))] + refs
+        if ncommits > 1:
+            commits += ["HEAD^", "@SHA:HEAD~1", "@SHA:HEAD", "main", "refs/heads/main"]
         kind = rng.choice(["cc", "ci", "cw", "cw", "iw", "iw"] if ncommits else ["iw"])
         if q["api"] == "cli":
             kind = rng.choice(["cc", "cw", "cw"]) if ncommits else None
@@ -476,6 +478,17 @@ class Runner:
         if not os.path.isdir(cwd_abs):
             self.log.ev("noop", op="query", err="cwd missing")
             return
+        def sha_tok(t):
+            if isinstance(t, str) and t.startswith("@SHA:"):
+                pr = w.git("rev-parse", "--short=10", t[5:], check=False)
+                return pr.stdout.decode().strip() or t[5:]
+            return t
+        if any(isinstance(q.get(k), str) and q[k].startswith("@SHA:") for k in ("ref_a", "ref_b")) or \
+                any(isinstance(t, str) and t.startswith("@SHA:") for t in (q.get("argv") or [])):
+            q = dict(q, ref_a=sha_tok(q.get("ref_a")), ref_b=sha_tok(q.get("ref_b")))
+            if q.get("argv"):
+                q["argv"] = [sha_tok(t) for t in q["argv"]]
+            self.stat("queries_with_abbreviated_sha")
         raw_argv = None
         git_mode = True
         if q["api"] in ("cli", "cli_raw"):
